@@ -134,7 +134,7 @@ func (c *leafCtx) jump(v string) string {
 // of mode Option / Out.
 func (c *leafCtx) bindLine(x, pat, kind string) string {
 	c.failCount++
-	if kind == "callee2" {
+	if kind == "callee2" || kind == "stuck" {
 		c.stuckCount++
 	}
 	if strings.Contains(pat, ",") && !strings.HasPrefix(pat, "(") {
@@ -148,14 +148,16 @@ func (c *leafCtx) bindLine(x, pat, kind string) string {
 			x = "(Go.Out.ofOption " + leanString(strings.TrimPrefix(kind, "opt:")) + " " + x + ")"
 		case kind == "callee1":
 			x = "(Go.Out.ofOption \"panic\" " + x + ")"
+		case kind == "stuck":
+			x = "(Go.Out.ofOptionStuck " + x + ")"
 		}
 		if inLoop {
 			return "Go.Ctl.bindR " + x + " fun " + pat + " =>"
 		}
 		return "(" + x + ").bind fun " + pat + " =>"
 	default:
-		if kind == "callee2" {
-			c.fail("call of a leaf with an unbounded loop from a function translated without one")
+		if kind == "callee2" || kind == "stuck" {
+			c.fail("an operation that needs the Out outcome in a function translated without it")
 		}
 		if inLoop {
 			return "Go.Ctl.bindO " + x + " fun " + pat + " =>"
@@ -1348,6 +1350,8 @@ func (c *leafCtx) zero(t string) string {
 		return "Go.Time.zero"
 	case strings.HasPrefix(t, "L_"):
 		return "([] : " + leanTypeName(t) + ")"
+	case strings.HasPrefix(t, "C_"):
+		return "(Go.Slice.nil : " + leanTypeName(t) + ")"
 	case strings.HasPrefix(t, "A") && strings.Contains(t, "_"):
 		n, et := arrayParts(t)
 		if z := c.zero(et); z != "" && n >= 0 {
@@ -1393,14 +1397,109 @@ func (c *leafCtx) useStruct(n string) {
 
 func (c *leafCtx) noteAliasWrite(base string) {}
 
-func (c *leafCtx) copy7(ce *ast.CallExpr, next func(string) string, ind string) string {
-	c.fail("copy is outside the subset")
-	return "0"
+// sliceArg: `X` or `X[a:]` for a capacity-modelled slice X: (X, a)
+func (c *leafCtx) sliceArg(e ast.Expr) (ast.Expr, string, string, bool) {
+	if se, ok := e.(*ast.SliceExpr); ok && se.High == nil && se.Max == nil && se.Low != nil {
+		_, t := c.peek(se.X)
+		if strings.HasPrefix(t, "C_") {
+			lo, _ := c.expr(se.Low, "Int64")
+			return se.X, lo, t, true
+		}
+		return nil, "", "", false
+	}
+	_, t := c.peek(e)
+	if strings.HasPrefix(t, "C_") {
+		return e, "(0 : Int64)", t, true
+	}
+	return nil, "", "", false
 }
 
+// copy7: copy(X[a:], Y[b:]) on capacity-modelled slices
+func (c *leafCtx) copy7(ce *ast.CallExpr, next func(string) string, ind string) string {
+	nl := "\n" + ind
+	dx, da, dt, ok1 := c.sliceArg(ce.Args[0])
+	sx, sa, st, ok2 := c.sliceArg(ce.Args[1])
+	if !ok1 || !ok2 || dt != st {
+		c.fail("copy between slices outside the subset")
+		return "0"
+	}
+	d, _ := c.expr(dx, "")
+	s, _ := c.expr(sx, "")
+	tmp := c.fresh("_s")
+	c.binds = append(c.binds, c.bindLine("(Go.Slice.copy? "+d+" "+da+" "+s+" "+sa+")", tmp, "opt:slice"))
+	name, val, ok := c.assignPath(dx, tmp)
+	if !ok {
+		c.fail("unsupported copy target")
+		return "0"
+	}
+	return c.takeBinds(ind) + c.letLine(name, c.vars[baseIdent(dx).Name], val) + nl + next(ind)
+}
+
+// sortFunc7: slices.SortFunc(X, func(a, b T) int { return cmp.Compare(a.F, b.F) })
 func (c *leafCtx) sortFunc7(ce *ast.CallExpr, next func(string) string, ind string) string {
-	c.fail("slices.SortFunc is outside the subset")
-	return "0"
+	nl := "\n" + ind
+	fl, ok := ce.Args[1].(*ast.FuncLit)
+	if !ok || len(fl.Body.List) != 1 || fl.Type.Params.NumFields() != 2 {
+		c.fail("slices.SortFunc with an unsupported comparison")
+		return "0"
+	}
+	var pn []string
+	for _, p := range fl.Type.Params.List {
+		for _, n := range p.Names {
+			pn = append(pn, n.Name)
+		}
+	}
+	rs, ok := fl.Body.List[0].(*ast.ReturnStmt)
+	if !ok || len(rs.Results) != 1 || len(pn) != 2 {
+		c.fail("slices.SortFunc with an unsupported comparison")
+		return "0"
+	}
+	cmp, ok := rs.Results[0].(*ast.CallExpr)
+	if !ok || !isPkgCall(cmp, "cmp", "Compare") || len(cmp.Args) != 2 {
+		c.fail("slices.SortFunc with an unsupported comparison")
+		return "0"
+	}
+	fa, ok1 := cmp.Args[0].(*ast.SelectorExpr)
+	fb, ok2 := cmp.Args[1].(*ast.SelectorExpr)
+	if !ok1 || !ok2 || fa.Sel.Name != fb.Sel.Name {
+		c.fail("slices.SortFunc with an unsupported comparison")
+		return "0"
+	}
+	ia, ok1 := fa.X.(*ast.Ident)
+	ib, ok2 := fb.X.(*ast.Ident)
+	if !ok1 || !ok2 || ia.Name != pn[0] || ib.Name != pn[1] {
+		c.fail("slices.SortFunc with an unsupported comparison")
+		return "0"
+	}
+	xs, xt := c.expr(ce.Args[0], "")
+	if !strings.HasPrefix(xt, "C_S_") {
+		c.fail("slices.SortFunc on an unsupported slice")
+		return "0"
+	}
+	ft := ""
+	for _, f := range c.structs[strings.TrimPrefix(xt, "C_S_")] {
+		if f[0] == fa.Sel.Name {
+			ft = f[1]
+		}
+	}
+	if ft != "Int64" {
+		c.fail("slices.SortFunc key that is not an int64 field")
+		return "0"
+	}
+	tmp := c.fresh("_s")
+	c.binds = append(c.binds, c.bindLine("(Go.Slice.sortBy? (fun a => a."+fa.Sel.Name+") "+xs+")", tmp, "stuck"))
+	name, val, ok := c.assignPath(ce.Args[0], tmp)
+	if !ok {
+		c.fail("unsupported sort target")
+		return "0"
+	}
+	return c.takeBinds(ind) + c.letLine(name, c.vars[baseIdent(ce.Args[0]).Name], val) + nl + next(ind)
+}
+
+// capFields: slice-typed struct fields modelled with their capacity (Go.Slice)
+var capFields = map[string]bool{
+	"core/client:LuckyPacketFilter.state":     true,
+	"core/client:LuckyPacketFilter.luckyPkts": true,
 }
 
 // ---- expressions of the seventh generation ------------------------------------------------
@@ -1475,6 +1574,11 @@ func (c *leafCtx) expr7(e ast.Expr, want string) (string, string, bool) {
 			v := c.fresh("_i")
 			c.binds = append(c.binds, c.bindLine("(Go.idx? "+xs+" "+is+")", v, "opt:index"))
 			return v, "Int64", true
+		case strings.HasPrefix(xt, "C_"):
+			is, _ := c.expr(x.Index, "Int64")
+			v := c.fresh("_i")
+			c.binds = append(c.binds, c.bindLine("(Go.Slice.get? "+xs+" "+is+")", v, "opt:index"))
+			return v, strings.TrimPrefix(xt, "C_"), true
 		case strings.HasPrefix(xt, "L_") || strings.HasPrefix(xt, "A"):
 			et := strings.TrimPrefix(xt, "L_")
 			if n, at := arrayParts(xt); n >= 0 && !strings.HasPrefix(xt, "L_") {
@@ -1486,6 +1590,16 @@ func (c *leafCtx) expr7(e ast.Expr, want string) (string, string, bool) {
 			return v, et, true
 		}
 		c.fail("unsupported index expression")
+		return "0", want, true
+	case *ast.SliceExpr:
+		xs, xt := c.expr(x.X, "")
+		if strings.HasPrefix(xt, "C_") && x.Low == nil && x.High != nil && x.Max == nil { // s[:n]
+			n, _ := c.expr(x.High, "Int64")
+			v := c.fresh("_s")
+			c.binds = append(c.binds, c.bindLine("(Go.Slice.to? "+xs+" "+n+")", v, "opt:slice"))
+			return v, xt, true
+		}
+		c.fail("unsupported slice expression")
 		return "0", want, true
 	case *ast.CompositeLit:
 		tn := typeName(x.Type)
@@ -1544,7 +1658,7 @@ func (c *leafCtx) expr7(e ast.Expr, want string) (string, string, bool) {
 						return "(Go.len " + a + ")", "Int64", true
 					}
 					if strings.HasPrefix(t, "C_") {
-						return "(Go.Slice.len " + a + ")", "Int64", true
+						return "(Go.Slice.len' " + a + ")", "Int64", true
 					}
 					c.fail("len of an unsupported value")
 					return "0", "Int64", true
@@ -1558,6 +1672,22 @@ func (c *leafCtx) expr7(e ast.Expr, want string) (string, string, bool) {
 					c.fail("cap of a slice modelled without a capacity")
 					return "0", "Int64", true
 				}
+			case "append":
+				if len(x.Args) == 2 && x.Ellipsis == token.NoPos {
+					xs, xt := c.expr(x.Args[0], "")
+					if strings.HasPrefix(xt, "C_") {
+						et := strings.TrimPrefix(xt, "C_")
+						v, vt := c.expr(x.Args[1], et)
+						if vt != et && vt != "" {
+							c.fail("append of a %s to a slice of %s", vt, et)
+						}
+						r := c.fresh("_s")
+						c.binds = append(c.binds, c.bindLine("(Go.Slice.append? "+xs+" "+v+")", r, "stuck"))
+						return r, xt, true
+					}
+				}
+				c.fail("append to a slice modelled without a capacity")
+				return "0", want, true
 			case "make":
 				if len(x.Args) == 2 && c.leanType(x.Args[0]) == "L_UInt8" {
 					if v := c.ev.eval(x.Args[1], 0); v.Kind() != 0 && !c.mentionsVar(x.Args[1]) {
@@ -1959,7 +2089,7 @@ func prepareDir(repo string, parsed map[string][]*ast.File, fset *token.FileSet,
 		}
 	}
 	// struct field types (second pass so that nested structs resolve)
-	c0 := &leafCtx{structs: structs}
+	c0 := &leafCtx{structs: structs, dir: dir}
 	for _, f := range files {
 		for _, d := range f.Decls {
 			gd, ok := d.(*ast.GenDecl)
@@ -1995,6 +2125,8 @@ var leaves7 = []leaf7Spec{
 	{"base/crypto", "randInt63", "crypto_randInt63", "LeafCrypto"},
 	{"base/crypto", "RandIntn", "crypto_RandIntn", "LeafCrypto"},
 	{"base/crypto", "Sample", "crypto_Sample", "LeafCrypto"},
+	{"core/client", "LuckyPacketFilter.Do", "client_LuckyPacketFilter_Do", "LeafClient"},
+	{"core/client", "LuckyPacketFilter.Reset", "client_LuckyPacketFilter_Reset", "LeafClient"},
 }
 
 func emitLeaves7(repo string, parsed map[string][]*ast.File, fset *token.FileSet, leafPath string) {
